@@ -37,11 +37,6 @@ on `timingFields ++ limitFields` are equal (no field of `ChanCfg` is outside the
 theorem timing_fields_complete {a b : ChanCfg} (h : agreeOn (timingFields ++ limitFields) a b = true) :
     a = b := eq_of_agree_all h
 
-theorem timeline_erase (s : SeqState) : timeline (erase s) = timeline s := by
-  unfold timeline
-  simp only [erase_chans, List.map_map, erase_refs, erase_measured]
-  rfl
-
 /-- **Only the timing fields matter** (clause: a strict switch that returns, returns the identical
 timeline).  Two devices whose channels and DMMs agree pairwise on `timingFields` — limits
 (`max_duration`, `max_amp`, `max_abs_detuning`, `min_avg_amp`, `max_targets`, DMM bottoms),
@@ -102,46 +97,6 @@ theorem strict_sound_of_complete_eom {params samples : List String} (h : strictM
     (hm : strictMatch params true a b = true) (hae : a.eom.isSome = true)
     (hdyn : agreeOn dynamicFields a b = true) : timing a = timing b :=
   strictMatch_sound_eom (covers_of_missing_nil h) wa wb hm hae hdyn
-
-/-- A pair of channels that a complete strict comparison accepts. -/
-def pairOk (params : List String) (a b : ChanCfg) : Bool :=
-  retargetWF a && retargetWF b &&
-    ((a.eom.isNone && b.eom.isNone && strictMatch params false a b) ||
-     (a.eom.isSome && strictMatch params true a b && agreeOn dynamicFields a b))
-
-def listOk (params : List String) (l₁ l₂ : List ChanCfg) : Bool :=
-  l₁.length == l₂.length && (l₁.zip l₂).all fun (a, b) => pairOk params a b
-
-theorem timing_of_pairOk {params samples : List String} (h : strictMissing params samples = [])
-    {a b : ChanCfg} (hp : pairOk params a b = true) : timing a = timing b := by
-  simp only [pairOk, Bool.and_eq_true, Bool.or_eq_true] at hp
-  obtain ⟨⟨wa, wb⟩, hc⟩ := hp
-  rcases hc with ⟨⟨ha, hb⟩, hm⟩ | ⟨⟨ha, hm⟩, hd⟩
-  · have := strict_sound_of_complete h wa wb hm
-    have ea : noEom a = a := by
-      cases a
-      simp only [noEom, ChanCfg.mk.injEq, true_and, and_true]
-      simp only [Option.isNone_iff_eq_none] at ha
-      exact ha.symm
-    have eb : noEom b = b := by
-      cases b
-      simp only [noEom, ChanCfg.mk.injEq, true_and, and_true]
-      simp only [Option.isNone_iff_eq_none] at hb
-      exact hb.symm
-    rwa [ea, eb] at this
-  · exact strict_sound_of_complete_eom h wa wb hm ha hd
-
-theorem map_timing_of_listOk {params samples : List String} (h : strictMissing params samples = []) :
-    ∀ {l₁ l₂ : List ChanCfg}, listOk params l₁ l₂ = true → l₁.map timing = l₂.map timing
-  | [], [], _ => rfl
-  | [], _ :: _, hl => by simp [listOk] at hl
-  | _ :: _, [], hl => by simp [listOk] at hl
-  | a :: l₁, b :: l₂, hl => by
-    simp only [listOk, List.length_cons, List.zip_cons_cons, List.all_cons, Bool.and_eq_true, beq_iff_eq,
-      Nat.add_right_cancel_iff] at hl
-    have ih : l₁.map timing = l₂.map timing :=
-      map_timing_of_listOk h (by simp only [listOk, Bool.and_eq_true, beq_iff_eq]; exact ⟨hl.1, hl.2.2⟩)
-    simp only [List.map_cons, timing_of_pairOk h hl.2.1, ih]
 
 /-- **Strict ⇒ identical timeline, once nothing is uncovered**: if the strict comparison covers
 every timing parameter (`strictMissing … = []`) and the channels of two devices pass it pairwise,
